@@ -28,7 +28,7 @@ class C04(TraceCheck):
     module = "FSArrayTrace"
     rule = ("histories of region assignments on a real FSArray: shapes 0..3 x 0..4 (constructor formatting none / bg), forms "
             "a[r0:r1, c0:c1] = block, a[r, c] = [x], a[r0:r1] = block, regions inside, straddling and beyond the height "
-            "(r in 0..rows+2, c in 0..cols), blocks with the right and wrong number of rows, rows shorter/equal/longer than the "
+            "(r in 0..rows+2, c in 0..cols) and hanging over the right edge (column stops up to 2*cols+2), blocks with the right and wrong number of rows, rows shorter/equal/longer than the "
             "region, empty rows, given as list of str/FmtStr or as FSArray; after every step the full row list is recorded; "
             "region and row reads are interleaved; fsarray(strings, width) construction. Sources: TLC-generated behaviours "
             "(MC_FSArray GenSpec) + all single assignments on 1x2/2x2/2x3 arrays pre-filled two ways + seeded random "
@@ -90,6 +90,26 @@ class C04(TraceCheck):
                                         {"k": "assign", "r0": r0, "r1": r1, "c0": c0, "c1": c1, "block": b,
                                          "bk": "fsarray" if (r0 + c1 + len(b)) % 4 == 0 else "list", "form": "slice2"},
                                         {"k": "read", "r0": 0, "r1": h + 3, "c0": 0, "c1": w}]}
+        # column stops past the array's width (a[r, c0:c0 + k] with the region hanging over the right edge, the stop
+        # as far past the width as the start is from column 0 included): the region is what exists of it
+        for (h, w) in [(1, 2), (2, 3), (1, 4)]:
+            vals = rowvals(w)
+            for prefill in (None, "full", "short"):
+                pre = []
+                if prefill:
+                    txt = "p" * w if prefill == "full" else "p" * max(1, w - 1)
+                    pre = [{"k": "assign", "r0": 0, "r1": h, "c0": 0, "c1": len(txt), "block": [srow(txt)] * h, "bk": "list", "form": "slice2"}]
+                for r0 in range(0, h + 1):
+                    for c0 in range(0, w + 2):
+                        for c1 in range(max(c0, w + 1), 2 * w + 3):
+                            bs = [[v] for v in vals]
+                            if tier == "quick":
+                                bs = rng.sample(bs, min(len(bs), 3))
+                            for b in bs:
+                                yield {"h": h, "w": w, "fmt": (r0 + c1) % 2, "steps": pre + [
+                                    {"k": "assign", "r0": r0, "r1": r0 + 1, "c0": c0, "c1": c1, "block": b,
+                                     "bk": "fsarray" if (c0 + c1) % 5 == 0 else "list", "form": "slice2"},
+                                    {"k": "read", "r0": 0, "r1": h + 2, "c0": 0, "c1": w + 2}]}
         # neighbouring rows with the same terminal string but different cells (a red 'a' next to a row whose TEXT is the
         # escape-coded rendering of a red 'a'), filled / cleared with [row] * n (one block row object used for both)
         red_a = {"k": "f", "v": [[[97], [2, 0, 0, 0, 0, 0, 0, 0]]]}
